@@ -804,3 +804,279 @@ class GateSuite(SystemSuite):
 
     def oracle_C01(self, case, out):
         return StartStopSuite.oracle_C01(self, {"oracle": {"n": case["oracle"]["final_n"]}}, {"trace": [it for it in out.get("trace", []) if Fraction(it[0]) >= Fraction(case["oracle"]["look2"])]}) if "trace" in out else None
+
+
+# ============================================================================= C08: ownership
+def ground_truth(events, name):
+    """The server's own bookkeeping, independent of Wheatley: returns f(bell, time) -> is the bell
+    Wheatley's responsibility, from the assignment / user messages delivered up to and including
+    `time` (users are announced before they are assigned in the generated histories)."""
+    timeline = []
+    assigned, names, size = {}, {}, 0
+    for t, e in sorted(((Fraction(t), e) for t, e in events), key=lambda x: x[0]):
+        k = e[0]
+        if k == "global":
+            size = len(e[1])
+        elif k == "size":
+            if e[1] != size:
+                size = e[1]
+                assigned = {b: u for b, u in assigned.items() if b <= size}
+        elif k == "user_entered":
+            names[e[1]] = e[2]
+        elif k == "userlist":
+            for i, n in e[1]:
+                names[i] = n
+        elif k == "user_left":
+            assigned = {b: u for b, u in assigned.items() if u != e[1]}
+        elif k == "assign":
+            if e[2]:
+                assigned[e[1]] = e[2]
+            else:
+                assigned.pop(e[1], None)
+        else:
+            continue
+        timeline.append((t, dict(assigned), dict(names)))
+
+    def owned(bell, time):
+        a, nm = {}, {}
+        for (t, aa, nn) in timeline:
+            if t <= time:
+                a, nm = aa, nn
+        u = a.get(bell)
+        if u is None:
+            return name is None
+        return nm.get(u) == name
+    return owned
+
+
+def ownership_session(rng):
+    n = rng.randint(4, 12)
+    stage = rng.randint(max(2, n - 2), n)
+    spec = rng.choice([{"kind": "plain_hunt", "stage": stage, "custom": None},
+                       {"kind": "pn", "stage": stage, "method": "x1" if stage % 2 == 0 else "3.1", "bob": None,
+                        "single": None, "start_index": 0, "custom": None}])
+    name = rng.choice([None, None, "Wheatley", "Alice"])
+    dur = Fraction(1, 8)
+    look_to = Fraction(rng.randint(25, 40), 100) + Fraction(1, 1000)
+    sch = Schedule(look_to, dur)
+    nrows = rng.choice([4, 6, 8])
+    users = [(11, "Alice"), (12, "Bob"), (13, "Wheatley"), (14, "Alice")]
+    evs = [ev(0, "global", [True] * n)]
+    if rng.random() < 0.5:
+        evs.append(ev(Fraction(3, 100), "userlist", [list(u) for u in users]))
+    else:
+        for i, u in enumerate(users):
+            evs.append(ev(Fraction(3, 100) + Fraction(i, 1000), "user_entered", u[0], u[1]))
+    for b in rng.sample(range(1, n + 1), rng.randint(0, n)):
+        evs.append(ev(Fraction(10, 100) + Fraction(b, 10000), "assign", b, rng.choice([11, 12, 13, 14])))
+    evs.append(ev(look_to, "call", "Look to"))
+    nticks = nrows * n
+    for _ in range(rng.randint(0, 10)):     # churn at arbitrary instants, also inside waits
+        j = rng.randrange(nticks)
+        t = sch.wait(j, Fraction(rng.randint(1, 96), 97)) if rng.random() < 0.7 else sch.pause(j, Fraction(rng.randint(3, 94), 97))
+        r = rng.random()
+        if r < 0.6:
+            evs.append(ev(t, "assign", rng.randint(1, n), rng.choice([0, 0, 11, 12, 13, 14])))
+        elif r < 0.75:
+            evs.append(ev(t, "user_left", rng.choice([11, 12, 13, 14])))
+        elif r < 0.85:
+            evs.append(ev(t, "user_entered", rng.choice([11, 12, 15]), rng.choice(["Alice", "Bob", "Zed"])))
+        else:
+            evs.append(ev(t, "ring", rng.randint(1, n)))      # a human pulls a rope, maybe Wheatley's
+    return {"gen": spec, "udi": True, "stop_at_rounds": False, "call_comps": True, "name": name, "instance": None,
+            "rhythm": {"kind": "scripted", "durs": [fstr(dur)] * (nticks + 20)},
+            "delta": fstr(rng.choice([0, 0, Fraction(1, 1000)])),
+            "horizon": fstr(sch.end_of(nticks) + Fraction(1, 3000)), "events": sorted_events(evs)}
+
+
+class OwnershipSuite(SystemSuite):
+    name = "ownership"
+    coq_cap = {"quick": 150}
+
+    def scenarios(self, rng, tier):
+        for _ in range(300 if tier == "quick" else 3000):
+            yield ownership_session(rng)
+
+    def oracle_C08(self, case, out):
+        if "trace" not in out:
+            return None
+        owned = ground_truth(case["events"], case.get("name"))
+        human_rings = [(Fraction(t), e[1]) for t, e in case["events"] if e[0] == "ring"]
+        delta = Fraction(case.get("delta", 0))
+        cur = None          # the tick in progress: (begin time, bell, row, place)
+        struck_this_tick = 0
+        per_row = {}
+        for it in out["trace"]:
+            t = Fraction(it[0])
+            if it[1] == "r_wait":
+                cur = (t, it[3], it[4], it[5])
+                struck_this_tick = 0
+            elif it[1] == "r_init":
+                per_row = {}
+            elif it[1] == "bell":
+                bell, hand = it[2], it[3]
+                if cur is None:
+                    return f"strike of bell {bell} outside any tick"
+                tb, b0, row, place = cur
+                if bell != b0:
+                    return f"row {row} place {place}: it was bell {b0}'s turn but bell {bell} was struck"
+                if not owned(bell, tb):
+                    return f"row {row}: struck bell {bell}, which was someone else's when its turn came"
+                if hand != (row % 2 == 0):
+                    return f"row {row}: bell {bell} struck at {'hand' if hand else 'back'}"
+                struck_this_tick += 1
+                if struck_this_tick > 1 or per_row.get((row, bell)):
+                    return f"bell {bell} struck twice for row {row}"
+                per_row[(row, bell)] = place
+        # the server refuses a strike only if a human pulled that rope while Wheatley's view was stale
+        for (t, bell, hand) in out.get("rejected", []):
+            t = Fraction(t)
+            if not any(b == bell and 0 <= t - tr <= delta for (tr, b) in human_rings):
+                return f"the server rejected Wheatley's strike of bell {bell} at {float(t):.3f}s"
+        # completeness: an owned bell whose rope nobody else touched is struck in every row
+        touched = {b for (_t, b) in human_rings}
+        waits = [(Fraction(it[0]), it[3], it[4], it[5]) for it in out["trace"] if it[1] == "r_wait"]
+        stamps = {}
+        for it in out["trace"]:
+            if it[1] == "bell":
+                stamps.setdefault(it[2], []).append(Fraction(it[0]))
+        horizon = Fraction(case["horizon"])
+        ever_foreign = set()     # a bell somebody else held at one of its turns may be out of step
+        for (tb, bell, row, place) in waits[:-1]:
+            if not owned(bell, tb):
+                ever_foreign.add(bell)
+            if bell in touched or bell in ever_foreign:
+                continue
+            if not any(tb <= ts for ts in stamps.get(bell, [])) and tb + Fraction(1, 4) < horizon:
+                return f"row {row}: bell {bell} was Wheatley's and in step but was not struck"
+        return None
+
+    oracle_C01 = lambda self, case, out: None  # noqa: E731
+
+
+# ============================================================================= C16: compositions
+def comp_payload(rng):
+    stage = rng.randint(4, 12)
+    rounds = gens.BELL_NAMES[:stage]
+    n0 = rng.choice([1, 1, 2, 2, 3])
+    early_pool = ["", "", "Go Original", "Single", "Bob", "Go Erin; Single", "Stand", " Bob ;Stand"]
+    rows = [[rounds, rng.choice(early_pool), 0] for _ in range(n0)]
+    cur = list(rounds)
+    nrows = rng.randint(1, 14)
+    pool = ["", "", "", "Bob", "Single", "Go Plain Bob", "Bob; Single", "Stand", "Plain Bob;Stand", "s"]
+    for i in range(nrows):
+        for k in range(i % 2, stage - 1, 2):
+            cur[k], cur[k + 1] = cur[k + 1], cur[k]
+        if "".join(cur) == rounds:
+            cur[0], cur[1] = cur[1], cur[0]
+        rows.append(["".join(cur), rng.choice(pool), rng.randint(0, 7)])
+    if rng.random() < 0.6:
+        rows.append([rounds, rng.choice(["That's all", "That's all", "", "That's all;Stand"]), 0])
+    return {"stage": stage, "title": "T", "rows": rows}
+
+
+class CompositionSuite(SystemSuite):
+    name = "compositions"
+    coq_cap = {"quick": 200}
+
+    def scenarios(self, rng, tier):
+        for _ in range(300 if tier == "quick" else 3000):
+            p = comp_payload(rng)
+            stage = p["stage"]
+            n = min(16, stage + rng.choice([0, 0, 1, 2]))
+            udi = rng.random() < 0.3
+            dur = Fraction(1, 8)
+            look_to = Fraction(131, 1000)
+            sch = Schedule(look_to, dur)
+            nrows = len(p["rows"]) + 9
+            evs = [ev(0, "global", [True] * n), ev(look_to, "call", "Look to")]
+            go = None
+            if not udi:
+                go = (rng.randint(0, 6), rng.randrange(n), rng.random() < 0.25)
+                j = go[0] * n + go[1]
+                t = sch.pause(j, Fraction(rng.randint(20, 80), 101)) if go[2] else sch.wait(j, Fraction(rng.randint(5, 95), 101))
+                evs.append(ev(t, "call", "Go"))
+                go = ((j + 1) // n if go[2] else go[0], fstr(t))
+            yield {"gen": {"kind": "complib", "payload": p}, "udi": udi, "stop_at_rounds": False,
+                   "call_comps": rng.random() < 0.8, "name": None, "instance": None,
+                   "rhythm": {"kind": "scripted", "durs": [fstr(dur)] * (nrows * n + 8)},
+                   "delta": fstr(rng.choice([0, Fraction(1, 1000)])),
+                   "horizon": fstr(sch.end_of(nrows * n) + Fraction(1, 3000)), "events": sorted_events(evs),
+                   "oracle": {"n": n, "go": go}}
+
+    def to_coq(self, case, out):
+        c = {k: v for k, v in case.items() if k != "oracle"}
+        return scenario_coq(c, out, self.fuel, self.tol, self.min_margin)
+
+    def run_impl(self, case):
+        c = {k: v for k, v in case.items() if k != "oracle"}
+        return sim.run_scenario(c, gens.build_impl_generator)
+
+    def oracle_C16(self, case, out):
+        if "trace" not in out:
+            return None
+        p = case["gen"]["payload"]
+        n = case["oracle"]["n"]
+        stage = p["stage"]
+        rounds = list(range(1, n + 1))
+        first = p["rows"][0][0]
+        n0 = 0
+        while p["rows"][n0][0] == first:
+            n0 += 1
+        sp_hand = n0 % 2 == 0
+
+        def clean(s):
+            return [c for c in (x.strip() for x in s.split(";")) if c != "Stand"] if s != "" else []
+        comp = [([gens.BELL_NAMES.index(ch) + 1 for ch in r[0]] + rounds[stage:], clean(r[1])) for r in p["rows"][n0:]]
+        early = {n0 - i: clean(p["rows"][i][1]) for i in range(n0) if clean(p["rows"][i][1])}
+        # when does the composition start?
+        if case["udi"]:
+            m, g, rl = (2 if sp_hand else 3), None, None
+        else:
+            g = case["oracle"]["go"][0]
+            m = g + 1 if ((g + 1) % 2 == 0) == sp_hand else g + 2
+            rl = m - g - 1          # rows of rounds still to come after the row of the Go
+        got = [(r, bells, t) for (r, bells, t) in rows_rung(out) if len(bells) == n]
+        for i, (r, bells, _t) in enumerate(got):
+            if i < m:
+                want = rounds
+            elif i - m < len(comp):
+                want = comp[i - m][0]
+            else:
+                want = rounds
+            if bells != want:
+                return f"row {i}: rang {bells}, the composition says {want} (first change at row {m})"
+        # calls: text, order and position
+        made = calls_made(out)
+        if not case["call_comps"]:
+            return "calls were made although calling is switched off" if made else None
+        if any(c == "Stand" for _t, c in made):
+            return "Wheatley called 'Stand'"
+        expected = []        # (row index or 'go', call)
+        for j in sorted(early, reverse=True):
+            row = m - j
+            if case["udi"] or row > g:
+                if row >= 0:
+                    expected += [(row, c) for c in early[j]]
+            else:
+                expected += [("go", c) for c in early[j]]
+        for k, (_bells, cs) in enumerate(comp):
+            expected += [(m + k, c) for c in cs]
+        expected = [(w, c) for (w, c) in expected if w == "go" or w < len(got)]
+        if [c for _w, c in expected] != [c for _t, c in made][:len(expected)] or len(made) > len(expected):
+            return f"calls made {[c for _t, c in made]} but the composition says {[c for _w, c in expected]}"
+        lead_times = {i: t for i, (_r, _b, t) in enumerate(got)}
+        st = strikes(out)
+        for (where, c), (t, _c) in zip(expected, made):
+            if where == "go":
+                if t != Fraction(case["oracle"]["go"][1]):
+                    return f"missed call {c!r} was not made at once when Go came late"
+            else:
+                # at the lead of that row: same instant as the first strike of the row, after it
+                first_strike = [ts for (ts, _b, _h) in st if ts >= lead_times[where]]
+                if not first_strike or t != first_strike[0]:
+                    return f"call {c!r} of row {where} was not made as that row's first bell struck"
+        return None
+
+    def oracle_C01(self, case, out):
+        return StartStopSuite.oracle_C01(self, case, out)
